@@ -65,6 +65,11 @@ CHECKS = {
         technique="exhaustive enumeration of all 65535 ring values x offset set (SeqNum); explicit-state BFS over BitField insertion histories (widths 8/16/32/256, three start positions incl. the wrap) against a set-based reference; wire ack-field monitor inside deviation-bounded exploration of the real stack",
         text="SeqNum: every a in 1..65535 x 44 (quick) / 1143 (thorough) offsets up to half the ring, both directions, all comparison operators, successor chain over two laps. BitField: BFS hashed on (newest, bits), contains() compared on the whole +-(w+3) neighbourhood after every insert. Wire: every header emitted in every <=2-deviation execution must name exactly the accepted peer datagrams among the newest 32.",
         note="offsets thinned (not all 32767) per value; BitField depth bounded (5/4/4/3 quick); wire part <=2 deviations"),
+    "C09": dict(
+        engine="enum+mcx", category="exploration", design="5/C09",
+        technique="bounded-exhaustive enumeration of header fields x message lists x {CRC, GCM} through the real codec; exhaustive enumeration of short send() sequences over boundary lengths x retry modes x MTUs, and of 254..300-message bursts, executed on the real client and both server send paths over a perfect virtual network",
+        text="Codec: 4.3e5 (quick) / 2.2e6 packets: exact round trip, length/count exactness, datagram length, total_size, direction enforcement. Packing: every sequence of <=2 (quick) / 3 send() calls over 9 boundary lengths per retry mode plus mixed-mode triples and bursts, for 4 / 12 MTUs on UdpClient.update, TwistedServer.sendPacketsUnsafe and UdpServerThread.send: datagram <= MTU-28, no exception, nothing lost, fit-together.",
+        note="no network faults in the packing part (C05/C06 cover those); lengths from the boundary set only; MTUs listed"),
 }
 
 NOT_YET = {
